@@ -1,8 +1,236 @@
 package checks
 
 import (
+	"context"
+	"crypto/sha256"
+	"encoding/hex"
 	"encoding/json"
+	"errors"
 	"fmt"
+	"os"
+	"path/filepath"
+	"strings"
+	"testing"
+
+	fscopy "github.com/tonistiigi/fsutil/copy"
+	"pgregory.net/rapid"
+
+	h "verif/harness"
 )
 
-func jailCopy(raw json.RawMessage) (any, error) { return nil, fmt.Errorf("not implemented") }
+// ---------------------------------------------------------------------------
+// C14: Copy never writes outside the destination root nor reads outside the
+// source root
+
+type c14Case struct {
+	Src    *h.Tree  `json:"src"`
+	Dst    *h.Tree  `json:"dst"`
+	SrcArg string   `json:"srcarg"`
+	DstArg string   `json:"dstarg"`
+	Follow bool     `json:"follow"`
+	Opts   h.CpOpts `json:"opts"`
+}
+
+type c14JailArg struct {
+	SrcArg string   `json:"srcarg"`
+	DstArg string   `json:"dstarg"`
+	Follow bool     `json:"follow"`
+	Opts   h.CpOpts `json:"opts"`
+}
+
+type c14JailResult struct {
+	Err string `json:"err"`
+}
+
+func jailCopy(raw json.RawMessage) (any, error) {
+	var a c14JailArg
+	if err := json.Unmarshal(raw, &a); err != nil {
+		return nil, err
+	}
+	ci := fscopy.CopyInfo{FollowLinks: a.Follow, CopyDirContents: a.Opts.DirContents, AlwaysReplaceExistingDestPaths: a.Opts.AlwaysReplace, AllowWildcards: a.Opts.Wildcards}
+	err := fscopy.Copy(context.Background(), "/src", a.SrcArg, "/dst", a.DstArg, fscopy.WithCopyInfo(ci))
+	res := &c14JailResult{}
+	if err != nil {
+		res.Err = err.Error()
+	}
+	return res, nil
+}
+
+var c14Targets = []string{
+	"/outside/secret", "/outside/dir", "../../outside/dir", "../outside/secret", "../../../outside/secret",
+	"dangling", "/outside/nonexistent", "../outside/newfile", "../../outside/newdir", "loop", "a", "/a", "..", ".", "/", "b/../../outside/dir",
+}
+
+var c14TreeCfg = h.TreeCfg{
+	MaxEntries: 8, MaxDepth: 3, Names: []string{"a", "b", "c", "l", "loop", "d"},
+	Kinds:      []h.Kind{h.KFile, h.KFile, h.KSymlink, h.KSymlink, h.KSymlink, h.KFifo},
+	SymTargets: c14Targets,
+}
+
+func genC14Arg(t *rapid.T, tr *h.Tree, label string) string {
+	if len(tr.Nodes) == 0 || rapid.IntRange(0, 5).Draw(t, label+"root") == 0 {
+		return rapid.SampledFrom([]string{"/", "new", "n1/n2/x", "."}).Draw(t, label+"plain")
+	}
+	p := tr.Nodes[rapid.IntRange(0, len(tr.Nodes)-1).Draw(t, label+"node")].Path
+	p += rapid.SampledFrom([]string{"", "", "", "/new", "/n1/n2/x", "/new/deep/data.txt", "/", "/..", "/../x", "/a"}).Draw(t, label+"suffix")
+	if rapid.IntRange(0, 7).Draw(t, label+"abs") == 0 {
+		p = "/" + p
+	}
+	if rapid.IntRange(0, 9).Draw(t, label+"dotdot") == 0 {
+		p = "../../" + p
+	}
+	return p
+}
+
+func genC14(t *rapid.T) *c14Case {
+	c := &c14Case{Src: h.GenTree(t, c14TreeCfg, "src"), Dst: h.GenTree(t, c14TreeCfg, "dst")}
+	c.SrcArg = genC14Arg(t, c.Src, "sa.")
+	c.DstArg = genC14Arg(t, c.Dst, "da.")
+	c.Follow = rapid.Bool().Draw(t, "follow")
+	c.Opts.DirContents = rapid.Bool().Draw(t, "dircontents")
+	c.Opts.AlwaysReplace = rapid.IntRange(0, 2).Draw(t, "replace") == 0
+	if rapid.IntRange(0, 4).Draw(t, "wild") == 0 {
+		c.Opts.Wildcards = true
+		c.SrcArg = rapid.SampledFrom([]string{"*", "l/*", "*/a", "a*", "l*", "?"}).Draw(t, "glob")
+	}
+	// unique, non-empty contents so bytes can be traced to their origin
+	for i := range c.Src.Nodes {
+		if n := &c.Src.Nodes[i]; n.Kind == h.KFile && n.LinkTo == "" {
+			n.Size = 40 + i
+			n.Seed = uint32(1000 + i)
+		}
+	}
+	for i := range c.Dst.Nodes {
+		if n := &c.Dst.Nodes[i]; n.Kind == h.KFile && n.LinkTo == "" {
+			n.Size = 60 + i
+			n.Seed = uint32(2000 + i)
+		}
+	}
+	c.Src.Normalize()
+	c.Dst.Normalize()
+	return c
+}
+
+func c14Check(env *h.Env, c *c14Case) error {
+	jail := filepath.Join(env.Scratch, "jail")
+	for _, d := range []string{"outside/dir", "src", "dst"} {
+		if err := os.MkdirAll(filepath.Join(jail, d), 0o755); err != nil {
+			return h.Infra(err)
+		}
+	}
+	for p, v := range map[string]string{"outside/secret": "OUTSIDE top secret bytes", "outside/dir/inner": "OUTSIDE inner secret bytes", "outside/dir/a": "OUTSIDE dir a bytes"} {
+		if err := os.WriteFile(filepath.Join(jail, p), []byte(v), 0o600); err != nil {
+			return h.Infra(err)
+		}
+	}
+	if err := h.Materialise(c.Src, filepath.Join(jail, "src")); err != nil {
+		return h.Infra(err)
+	}
+	if err := h.Materialise(c.Dst, filepath.Join(jail, "dst")); err != nil {
+		return h.Infra(err)
+	}
+	before, err := h.Snapshot(jail)
+	if err != nil {
+		return h.Infra(err)
+	}
+	var res c14JailResult
+	if err := runJailed(jail, "copy", 0, c14JailArg{SrcArg: c.SrcArg, DstArg: c.DstArg, Follow: c.Follow, Opts: c.Opts}, &res); err != nil {
+		var crash *helperCrash
+		if errors.As(err, &crash) {
+			return fmt.Errorf("Copy(src=%q dst=%q): the copying %v", c.SrcArg, c.DstArg, crash)
+		}
+		return h.Infra(err)
+	}
+	after, err := h.Snapshot(jail)
+	if err != nil {
+		return h.Infra(err)
+	}
+	what := fmt.Sprintf("Copy(src=%q, dst=%q, follow=%v, dir-contents=%v, always-replace=%v, wildcards=%v) -> err=%q", c.SrcArg, c.DstArg, c.Follow, c.Opts.DirContents, c.Opts.AlwaysReplace, c.Opts.Wildcards, res.Err)
+	// non-trivial: a symlink that leaves a root lies on a path the copy may touch
+	leaves := func(tr *h.Tree, arg string) bool {
+		for _, n := range tr.Nodes {
+			if n.Kind != h.KSymlink {
+				continue
+			}
+			if strings.Contains(n.Target, "outside") || strings.HasPrefix(n.Target, "..") || n.Target == "/" {
+				a := strings.Trim(filepath.ToSlash(filepath.Clean("/"+arg)), "/")
+				if a == "" || a == n.Path || strings.HasPrefix(a, n.Path+"/") || strings.HasPrefix(n.Path, a+"/") {
+					return true
+				}
+			}
+		}
+		return false
+	}
+	if leaves(c.Src, c.SrcArg) {
+		env.Class("src-escaping-link-on-path")
+		env.NonTrivial()
+	}
+	if leaves(c.Dst, c.DstArg) || leaves(c.Dst, "/") && res.Err == "" {
+		env.Class("dst-escaping-link-on-path")
+		env.NonTrivial()
+	}
+	if res.Err == "" {
+		env.Class("copy-succeeded")
+	} else {
+		env.Class("copy-failed")
+	}
+	// (1) nothing outside the destination root changes
+	for p, b := range before {
+		if p == "dst" || strings.HasPrefix(p, "dst/") {
+			continue
+		}
+		a := after[p]
+		if a == nil {
+			return fmt.Errorf("%s: %q outside the destination root was removed", what, p)
+		}
+		if !h.SameEntry(a, b, true) {
+			return fmt.Errorf("%s: %q outside the destination root was modified: %+v -> %+v", what, p, *b, *a)
+		}
+	}
+	for p, a := range after {
+		if p == "dst" || strings.HasPrefix(p, "dst/") {
+			continue
+		}
+		if before[p] == nil {
+			return fmt.Errorf("%s: %q (%s) was created outside the destination root", what, p, a.Kind)
+		}
+	}
+	// (2) every regular file under the destination root that is new or changed carries bytes of a file inside the source root
+	srcSha := map[string]string{}
+	for _, n := range c.Src.Nodes {
+		if n.Kind == h.KFile {
+			src := n
+			if n.LinkTo != "" {
+				src = *c.Src.Index()[n.LinkTo]
+			}
+			sum := sha256.Sum256(h.Content(src.Seed, src.Size))
+			srcSha[hex.EncodeToString(sum[:])] = n.Path
+		}
+	}
+	for p, a := range after {
+		if !strings.HasPrefix(p, "dst/") || a.Kind != h.KFile {
+			continue
+		}
+		b := before[p]
+		if b != nil && b.Kind == h.KFile && b.Ino == a.Ino && b.Sha == a.Sha {
+			continue // untouched old file
+		}
+		if _, ok := srcSha[a.Sha]; !ok {
+			origin := "unknown origin"
+			for q, e := range before {
+				if e.Kind == h.KFile && e.Sha == a.Sha {
+					origin = "the bytes of " + q
+				}
+			}
+			return fmt.Errorf("%s: %q was written with bytes that do not come from inside the source root (%s)", what, p, origin)
+		}
+	}
+	// symlinks met in the destination are replaced or reported as a conflict, never written through:
+	// an old destination file that is only reachable through an old symlink keeps its bytes unless the
+	// copy legitimately lands on its own path (then its new bytes come from the source, checked above)
+	return nil
+}
+
+func TestC14(t *testing.T) {
+	h.Run(t, "C14", genC14, c14Check)
+}
